@@ -9,6 +9,15 @@ CLAIMS = {
                  'natural level; liveness (a silent helper) is not decided.',
         'technique': 'CFG must-pass / gate / handler-coverage rules + who-may-read/write + tuple-shape agreement (ast)',
     },
+    'C01': {
+        'level': 'Necessary structural conditions of the five mechanisms the property names: every position-taking public Script method is '
+                 'wrapped by (or purely forwards to) validate_line_column; the wrapper raises only ValueError and its two range tests are '
+                 'exact and dominate the line lookup and the wrapped call; error recovery and the OnErrorLeaf containment are wired; '
+                 'None-discipline for names without tree position in api/classes.py and for parso navigator results in jedi/api/**; '
+                 'grammar-derived exhaustiveness of the definition/scope/operator dispatch tables; containment of internal control-flow '
+                 'exceptions. Totality over all inputs is not decided.',
+        'technique': 'decorator/forwarding census + CFG gate rules + None-dereference (contradiction) rule + grammar-vs-table agreement (ast)',
+    },
     'C12': {
         'level': 'Whole-package inventory of code-execution sinks and host-state writers by resolved callee (every call site classified), '
                  'who-may-call on the one real importer chain, gate/flow on the safe-path filter of _load_builtin_module, undotted '
